@@ -132,6 +132,8 @@ func errName(err error) string {
 		name = "uncovered"
 	case strings.Contains(m, "failed to reassemble"):
 		name = "reassemble"
+	case strings.Contains(m, "does not fit the packet buffer"):
+		name = "nofit"
 	}
 	if name == "other" && errors.Is(err, io.ErrUnexpectedEOF) {
 		name = "rand"
@@ -230,6 +232,8 @@ type runner struct {
 	cs    *quic.VerifCryptoStream
 	queue []string // scripted follow-up ops (scrambler scenarios)
 	last  [][]byte // payloads of the last successful flight (generator state only)
+	pf    *quic.VerifFlightPacker
+	pfN   int // generator state: packets packed so far in the current planned-flight session
 }
 
 func newRunner(r *vh.Rand) vh.Runner { return &runner{} }
@@ -415,6 +419,106 @@ func (rn *runner) Exec(op string) string {
 			return "bad-op"
 		}
 		return rn.execCS(f)
+	case "pf":
+		if len(f) < 2 {
+			return "bad-op"
+		}
+		return rn.execPF(f)
+	}
+	return "bad-op"
+}
+
+func stripZeros(b []byte) []byte {
+	n := len(b)
+	for n > 0 && b[n-1] == 0 {
+		n--
+	}
+	return b[:n]
+}
+
+// planned flight + loss recovery on a real uPacketPacker:
+//
+//	pf new <ff|rff> <datagram specs> <packet sizes|-> <maxSize> <draws>
+//	pf pack            one PackCoalescedPacket
+//	pf lose <k>        the k-th packed packet is declared lost (OnLost of every registered frame)
+func (rn *runner) execPF(f []string) string {
+	switch f[1] {
+	case "new":
+		if len(f) < 7 {
+			return "bad-op"
+		}
+		var fb quic.QUICFrameBuilder
+		switch f[2] {
+		case "ff":
+			fl := &quic.QUICFlightFrames{}
+			if f[3] != "!" {
+				for _, d := range strings.Split(f[3], "/") {
+					fl.Datagrams = append(fl.Datagrams, parseFrames(d))
+				}
+			}
+			fb = fl
+		case "rff":
+			fl := &quic.QUICRandomFlightFrames{}
+			if f[3] != "!" {
+				for _, d := range strings.Split(f[3], "/") {
+					cr := strings.SplitN(d, "|", 2)
+					if len(cr) != 2 {
+						return "bad-op"
+					}
+					fl.PerDatagram = append(fl.PerDatagram, quic.QUICRandomFlightDatagram{Frames: parseCfg(cr[0]), CryptoRanges: parseRanges(cr[1])})
+				}
+			}
+			fb = fl
+		default:
+			return "bad-op"
+		}
+		rn.pf = quic.VerifNewFlightPacker(fb, append([]byte{}, rn.src...), parseInts(f[4]), atoi(f[5]))
+		mfb, rb := rn.pf.Budgets(len(rn.src))
+		ms := make([]string, len(mfb))
+		for i, b := range mfb {
+			ms[i] = strconv.Itoa(b)
+		}
+		env := fmt.Sprintf(" mfb=%s rb=%d", strings.Join(ms, ","), rb)
+		var res string
+		withDraws(f[6], func() {
+			plan, err := rn.pf.Plan()
+			if err != nil {
+				res = errName(err) + env
+				return
+			}
+			res = "ok" + env + " plan=" + hexList(plan)
+		})
+		return res
+	}
+	if rn.pf == nil {
+		return "skip"
+	}
+	switch f[1] {
+	case "pack":
+		payload, reg, packed, err := rn.pf.Pack()
+		if err != nil {
+			return errName(err)
+		}
+		if !packed {
+			return "none"
+		}
+		rs := "-"
+		if len(reg) > 0 {
+			parts := make([]string, len(reg))
+			for i, c := range reg {
+				parts[i] = fmt.Sprintf("%d:%s", c.Offset, hx(c.Data))
+			}
+			rs = strings.Join(parts, ";")
+		}
+		return "pkt p=" + hx(payload) + " reg=" + rs
+	case "lose":
+		if len(f) < 3 {
+			return "bad-op"
+		}
+		if rn.pf.Lose(atoi(f[2])) {
+			return "ok"
+		}
+		return "skip"
 	}
 	return "bad-op"
 }
@@ -1206,6 +1310,139 @@ func (rn *runner) genStreamScenario(r *vh.Rand) {
 	rn.queue = append(rn.queue, q...)
 }
 
+// deal [0,N) to k datagrams in chunks, keeping every datagram below ~1000 bytes of CRYPTO data
+func dealBounded(r *vh.Rand, N, k int) [][][2]int {
+	out := make([][][2]int, k)
+	load := make([]int, k)
+	pos := 0
+	for pos < N {
+		l := 1 + r.Intn(500)
+		if pos+l > N {
+			l = N - pos
+		}
+		d := r.Intn(k)
+		for t := 0; t < k && load[d]+l > 1000; t++ {
+			d = (d + 1) % k
+		}
+		out[d] = append(out[d], [2]int{pos, pos + l})
+		load[d] += l
+		pos += l
+	}
+	if N == 0 {
+		out[0] = append(out[0], [2]int{0, 0})
+	}
+	return out
+}
+
+// a planned Initial flight on a real packer, with losses and retransmissions
+func (rn *runner) genPlannedScenario(r *vh.Rand) {
+	N := len(rn.src)
+	k := N/800 + 1 + r.Intn(2)
+	pieces := dealBounded(r, N, k)
+	random := r.Chance(45)
+	mode := r.Pick(85, 8, 7) // covering / a piece missing / junk range
+	var dgs []string
+	for d := 0; d < k; d++ {
+		var fr []string
+		for _, p := range pieces[d] {
+			if mode == 1 && r.Chance(25) {
+				continue
+			}
+			if random {
+				fr = append(fr, absRange(r, p[0], p[1], N, ":"))
+			} else {
+				fr = append(fr, "c"+absRange(r, p[0], p[1], N, ":"))
+			}
+		}
+		if mode == 2 {
+			if random {
+				fr = append(fr, fmt.Sprintf("%d:%d", r.Range(-int64(N)-2, int64(N)+2), r.Range(-int64(N)-2, int64(N)+2)))
+			} else {
+				fr = append(fr, fmt.Sprintf("c%d:%d", r.Range(-int64(N)-2, int64(N)+2), r.Range(-int64(N)-2, int64(N)+2)))
+			}
+		}
+		if random {
+			cfg := []string{"0,0,0,0,0,0,0", "1,3,2,5,0,0,0", "0,2,1,4,1,3,600", "1,4,3,5,0,0,0"}[r.Intn(4)]
+			rt := "0:1" // a datagram that got no piece repeats the first byte (an empty range list is an error)
+			if N == 0 || r.Chance(5) {
+				rt = "-"
+			}
+			if len(fr) > 0 {
+				rt = strings.Join(fr, ";")
+			}
+			dgs = append(dgs, cfg+"|"+rt)
+		} else {
+			for i, m := 0, r.Intn(3); i < m; i++ {
+				if r.Bool() {
+					fr = append(fr, "g")
+				} else {
+					fr = append(fr, fmt.Sprintf("p%d", r.Range(0, 30)))
+				}
+			}
+			for i := len(fr) - 1; i > 0; i-- {
+				j := r.Intn(i + 1)
+				fr[i], fr[j] = fr[j], fr[i]
+			}
+			if len(fr) == 0 {
+				dgs = append(dgs, "-")
+			} else {
+				dgs = append(dgs, strings.Join(fr, ","))
+			}
+		}
+	}
+	sizes := "-"
+	if r.Chance(50) {
+		sz := []string{}
+		for i, m := 0, 1+r.Intn(k); i < m; i++ {
+			sz = append(sz, []string{"1200", "1250", "1252", "1350"}[r.Intn(4)])
+		}
+		sizes = strings.Join(sz, ",")
+	}
+	maxSize := []int{1252, 1252, 1200, 1400}[r.Intn(4)]
+	kind, draws := "ff", "-z"
+	if random {
+		kind, draws = "rff", genDraws(r)
+	}
+	q := []string{fmt.Sprintf("pf new %s %s %s %d %s", kind, strings.Join(dgs, "/"), sizes, maxSize, draws)}
+	packed := 0
+	var alive []int
+	pack := func(n int) {
+		for i := 0; i < n; i++ {
+			q = append(q, "pf pack")
+			alive = append(alive, packed)
+			packed++
+		}
+	}
+	lose := func(p int) {
+		var keep []int
+		for _, a := range alive {
+			if r.Chance(p) {
+				q = append(q, fmt.Sprintf("pf lose %d", a))
+			} else {
+				keep = append(keep, a)
+			}
+		}
+		alive = keep
+	}
+	switch r.Pick(35, 35, 30) {
+	case 0: // the whole flight, then losses (a Retry re-queues everything: p=100)
+		pack(k)
+		lose([]int{30, 60, 100}[r.Intn(3)])
+	case 1: // losses while the flight is still going out
+		pack(1 + r.Intn(k))
+		lose(50)
+		pack(k)
+	default:
+		pack(k)
+	}
+	for round := 0; round < 2; round++ {
+		pack(2 + r.Intn(3))
+		lose(25)
+	}
+	pack(2*k + 4) // until nothing is left to send
+	rn.queue = append(rn.queue, q...)
+}
+
 func (rn *runner) GenOp(r *vh.Rand, i int) string {
 	if i == 0 {
 		rn.src = genSrc(r)
@@ -1216,7 +1453,12 @@ func (rn *runner) GenOp(r *vh.Rand, i int) string {
 		rn.queue = rn.queue[1:]
 		return op
 	}
-	switch r.Pick(16, 24, 6, 12, 12, 10, 8, 12) {
+	switch r.Pick(16, 24, 6, 12, 12, 10, 8, 12, 9) {
+	case 8:
+		rn.genPlannedScenario(r)
+		op := rn.queue[0]
+		rn.queue = rn.queue[1:]
+		return op
 	case 0: // QUICFrames
 		base, lo, n := rn.pickSlice(r)
 		switch r.Pick(45, 18, 8, 12, 17) {
